@@ -26,7 +26,11 @@ impl EventSource for RawIoBlock<'_> {
     fn subscribe(&mut self, co: CoroutineImpl) {
         #[cfg(feature = "io_cancel")]
         let handle = co_get_handle(&co);
-        let io_data = self.io_data;
+        // an owned reference: `self` and the io object may be gone once the coroutine is published (see the net subscribes)
+        let io_data = (**self.io_data).clone();
+        // register for cancel *before* the coroutine is published (see the net subscribes)
+        #[cfg(feature = "io_cancel")]
+        handle.get_cancel().set_io(io_data.clone());
         io_data.co.store(co);
         // there is event, re-run the coroutine
         if io_data.io_flag.load(Ordering::Acquire) != 0 {
@@ -36,12 +40,9 @@ impl EventSource for RawIoBlock<'_> {
 
         #[cfg(feature = "io_cancel")]
         {
-            let cancel = handle.get_cancel();
-            // register the cancel io data
-            cancel.set_io((*io_data).clone());
-            // re-check the cancel status
-            if cancel.is_canceled() {
-                unsafe { cancel.cancel() };
+            // re-check the cancel status: wake the coroutine of *this* wait, if it is still in the slot
+            if handle.get_cancel().is_canceled() {
+                io_data.schedule();
             }
         }
     }
